@@ -552,6 +552,16 @@ def modules_as_programs():
     return out
 
 
+def relative_text(code):
+    """remove_labels(code, relative_numbers=True) of the real pass applied to a finished labels-kept text (None: not callable)"""
+    try:
+        from stationeers_pytrapic.generate_code import CompilerPassGatherCode as G
+        g = G.__new__(G)
+        return g.strip_code(g.remove_labels(code, relative_numbers=True))
+    except Exception:
+        return None
+
+
 def check_c05(tier, t0):
     progs = names_family() + modules_as_programs() + pick(all_progs(["branches", "loops", "functions"]), tier, 14)
     if not any(n == "br_long_remarks" for n, _, _ in progs):
@@ -567,6 +577,7 @@ def check_c05(tier, t0):
     rep = Reporter("C05")
     items = []
     static = []
+    rel_items = []
     for n, s, fam in progs:
         for b in bases:
             ka, kb = cw.vec_name(b), cw.vec_name(dict(b, remove_labels=True))
@@ -582,10 +593,18 @@ def check_c05(tier, t0):
             entries = sorted(fi["label"] for fname, fi in (pre_a["functions"].items() if pre_a else []) if fname and fi["emitted"] and not fi["inlined"])
             static.append({"name": n, "tag": kb, "kept": label_lines(ca, owners_of(ca, post_a)), "removed": label_lines(cb), "entries": entries,
                            "src": s, "a_text": ca, "b_text": cb})
+            # relative mode of the same pass (no option reaches it): the labels-kept text through remove_labels(relative_numbers=True)
+            rel = relative_text(ca)
+            if rel is not None:
+                static[-1]["rel"] = label_lines(rel)
+                static[-1]["rel_text"] = rel
+                if b is cw.REF:
+                    rel_items.append({"name": n, "tag": "relative", "case": equiv.make_case(ic10load.load(ca), ic10load.load(rel)), "src": s,
+                                      "a_text": ca, "b_text": rel, "sample": sample_of(n, "relative", s, rel)})
     # static part: spec/Labels.tla evaluated by TLC on the artefacts
     d = workdir("C05_static")
     with open(os.path.join(d, "cases.json"), "w") as f:
-        json.dump([{"kept": c["kept"], "removed": c["removed"], "entries": c["entries"]} for c in static] +
+        json.dump([dict({"kept": c["kept"], "removed": c["removed"], "entries": c["entries"]}, **({"rel": c["rel"]} if "rel" in c else {})) for c in static] +
                   [{"kept": static[0]["kept"], "removed": static[0]["removed"][:-1], "entries": static[0]["entries"]}], f)  # last = mutant (self-test)
     with open(os.path.join(d, "Labels.cfg"), "w") as f:
         f.write("SPECIFICATION Spec\nCHECK_DEADLOCK FALSE\n")
@@ -596,6 +615,22 @@ def check_c05(tier, t0):
     if not any(v not in ("OK", "reported") for v in sv.get(len(static) + 1, [])):
         raise MachineryError("binding self-test failed: Labels.tla accepted a truncated artefact")
     static_states = r.distinct
+    # relative mode: conformance of a code path no option reaches; a mismatch is printed and counted, it is not a C05 alarm
+    # (the property is stated over result['code'])
+    rv = r.verdicts("RELVERDICT")
+    rel_stat = {"cases": 0, "match": 0, "mismatch": [], "skipped": 0}
+    for t, vs in rv.items():
+        if t > len(static):
+            continue
+        for v in vs:
+            rel_stat["cases"] += 1
+            if v == "REL_OK":
+                rel_stat["match"] += 1
+            elif v.startswith("REL_SKIPPED"):
+                rel_stat["skipped"] += 1
+            else:
+                rel_stat["mismatch"].append([static[t - 1]["name"], static[t - 1]["tag"], v])
+                print("NOTE relative-mode text differs from Labels.tla ResolveRel: case=%s variant=%s %s" % (static[t - 1]["name"], static[t - 1]["tag"], v))
     for t, vs in sv.items():
         if t == len(static) + 1:
             continue
@@ -611,8 +646,16 @@ def check_c05(tier, t0):
             "branch/loop/function families, each compiled with labels kept and removed under the same other options; "
             "static: Labels.tla Resolve(kept) must equal the removed-labels text token for token, every referenced label "
             "defined exactly once, every numeric target inside the program; dynamic: both texts run as IC10 machines")
+    # relative text run against the labelled text as IC10 machines (same reporting rule: counted, not an alarm)
+    if rel_items:
+        rel_items = rel_items if tier == "thorough" else rel_items[:24]
+        rvd, rst = equiv.run_cases("C05rel", [it["case"] for it in rel_items], batches=4, workers=2, timeout=300, single_timeout=45)
+        bad = [(it["name"], sorted(v for v in vs if equiv.is_violation(v))) for it, vs in zip(rel_items, rvd) if any(equiv.is_violation(v) for v in vs)]
+        for nm, vs in bad:
+            print("NOTE relative-mode text behaves differently from the labelled text: case=%s %s" % (nm, vs))
+        rel_stat.update({"dynamic_cases": len(rel_items), "dynamic_differ": bad, "dynamic_states": rst["states"]})
     rc = run_equiv_check("C05", tier, t0, items, "model_checking", rule, ASSUME_IC10,
-                         extra_cov={"static_cases": len(static), "static_states": static_states}, outer=rep)
+                         extra_cov={"static_cases": len(static), "static_states": static_states, "relative_mode": rel_stat}, outer=rep)
     rc2 = rep.finish()
     return 1 if (rc or rc2) else 0
 
